@@ -82,6 +82,7 @@ CallResult Guarded(F&& f)
 	catch (const BitSerializer::SerializationException& e)
 	{
 		r.cat = "ser:" + BitSerializer::Convert::ToString(e.GetErrorCode());
+		for (auto& ch : r.cat) if (ch == ' ') ch = '_';
 		r.what = e.what();
 	}
 	catch (const std::bad_alloc& e) { r.cat = "bad_alloc"; r.what = e.what(); }
@@ -399,6 +400,7 @@ struct GenCfg
 	bool allowEmptyContainers = true;
 	bool allowIntKeys = false;
 	bool allowBin = true;
+	bool forceContainerRoot = false;
 	uint32_t kindMask = 0xFFFFFFFFu;   // swarm: enabled kinds
 };
 
@@ -460,7 +462,7 @@ inline void GenScalar(Source& s, Lane l, DynNode& n, const GenCfg& g)
 	case K::Str16: n.s16 = ToUtf16(GenText(s, l, tp, g.maxStr / 2)); break;
 	case K::Str32: n.s32 = GenText(s, l, tp, g.maxStr / 4); break;
 	case K::WStr: { auto t = GenText(s, l, tp, g.maxStr / 4); n.ws.assign(t.begin(), t.end()); break; }
-	case K::Bin: { const uint32_t len = GenLength(s, l, g.maxStr); n.bin.resize(len); for (auto& b : n.bin) b = static_cast<unsigned char>(s.draw(l, 256)); break; }
+	case K::Bin: { uint32_t len = GenLength(s, l, g.maxStr); if (len == 0 && !g.allowEmptyContainers) len = 1; n.bin.resize(len); for (auto& b : n.bin) b = static_cast<unsigned char>(s.draw(l, 256)); break; }
 	default: break;
 	}
 }
@@ -536,6 +538,8 @@ inline void GenCsvTable(Source& s, Lane l, DynNode& root, const GenCfg& g)
 	{
 		Key k;
 		k.s = GenKeyName(s, l, A_CSV, c);
+		// C13's stated precondition for BOM-less text streams: the document begins with an ASCII character other than NUL
+		if (c == 0 && (k.s.empty() || static_cast<unsigned char>(k.s[0]) >= 0x80 || static_cast<unsigned char>(k.s[0]) < 0x20)) k.s.insert(k.s.begin(), 'h');
 		keys.push_back(k);
 		kinds.push_back(DrawLeafKind(s, l, g));
 	}
@@ -559,7 +563,7 @@ inline DynNode GenDocument(Source& s, Lane l, const GenCfg& g)
 	DynNode root;
 	if (g.archive == A_CSV) { GenCsvTable(s, l, root, g); return root; }
 	uint32_t budget = g.maxNodes;
-	const uint32_t shape = s.draw(l, g.archive == A_XML ? 2 : 4);
+	const uint32_t shape = s.draw(l, (g.archive == A_XML || g.forceContainerRoot) ? 2 : 4);
 	if (shape == 0) root.kind = K::Obj;
 	else if (shape == 1) root.kind = K::Arr;
 	else root.kind = DrawLeafKind(s, l, g);
